@@ -219,7 +219,10 @@ def nest_text(rng: random.Random) -> str:
 
 
 NAME_PARTS = ["A", "B", "a", "_", "A1", "1A", "", "7000", "0", "-1", "+1", "1_0", " 1", "1 ", "٣", "１", "1.0", "x", "65536", "99999999999999999999", "1e3", "0x1", "é", "Ω", " ",
-              "\t", "\n", "..", "A.B", "A-B", "uint8", "ns", "S", "\u202e", "\x01", "A" * 100]
+              "\t", "\n", "..", "A.B", "A-B", "uint8", "ns", "S", "\u202e", "\x01", "A" * 100,
+              # characters that str.isdigit() / isnumeric() accept but int() does not (superscripts, circled digits, fractions,
+              # Roman numerals) and decimal digits of other scripts that int() does accept
+              "\u00b2", "\u2460", "\u00bd", "\u2163", "\u0e53", "\U0001d7d9", "\u2070", "1\u00b2", "\u00b21"]
 
 
 def gen_names(rng: random.Random) -> typing.List[typing.List[str]]:
@@ -232,9 +235,9 @@ def gen_names(rng: random.Random) -> typing.List[typing.List[str]]:
             parts = [rng.choice(NAME_PARTS) for _ in range(rng.choice([3, 3, 4, 4, 2, 5, 1]))]
             base = ".".join(parts) + rng.choice([".dsdl", ".dsdl", ".dsdl", ".uavcan", ".DSDL", ".dsdl.dsdl", ""])
         elif x < 0.7:
-            base = "%s.%s.%s.dsdl" % (rng.choice(["A", "Q", "q", "A_", "_A", "A1"]), rng.choice(["0", "1", "255", "256", "-1", "1_0", "+1", " 1"]), rng.choice(["0", "1", "255", "256", "00"]))
+            base = "%s.%s.%s.dsdl" % (rng.choice(["A", "Q", "q", "A_", "_A", "A1"]), rng.choice(["0", "1", "255", "256", "-1", "1_0", "+1", " 1", "\u00b2", "\u2460", "\u0e53"]), rng.choice(["0", "1", "255", "256", "00", "\u00b2", "\u2461", "1\u00b3"]))
         elif x < 0.85:
-            base = "%s.%s.1.0.dsdl" % (rng.choice(["0", "1", "7000", "7509", "8191", "8192", "65535", "-1", "1e3", "x", "511", "512"]), rng.choice(["A", "Q"]))
+            base = "%s.%s.1.0.dsdl" % (rng.choice(["0", "1", "7000", "7509", "8191", "8192", "65535", "-1", "1e3", "x", "511", "512", "\u00b2", "7\u2070\u2070\u2070", "\u2460"]), rng.choice(["A", "Q"]))
         else:
             base = rng.choice(["A.1.0.dsdl", "7000.A.1.0.dsdl", "A.1.0.uavcan", "a.1.0.dsdl", "A.1.1.dsdl", "A.01.0.dsdl", "A.1.00.dsdl"])
         base = base.replace("/", "_").replace("\x00", "_")
